@@ -18,6 +18,7 @@ type arithItem struct {
 	Dice *DiceSpec `json:",omitempty"`
 	Lit  int64     `json:",omitempty"`
 	Var  string    `json:",omitempty"`
+	Raw  string    `json:",omitempty"` // a dice expression without a per-term rulebook (chained / nested rolls)
 	Op   string    `json:",omitempty"` // operator before this item ("" for the first)
 	Open int       `json:",omitempty"` // parentheses opened before / closed after
 	Close int      `json:",omitempty"`
@@ -87,7 +88,9 @@ func c14Gen(seed uint64, tier string) any {
 			it.Open = 1
 			depth++
 		}
-		switch r.Intn(6) {
+		switch r.Intn(7) {
+		case 6:
+			it.Raw = Pick(r, []string{"2d6d4", "3d4d6d8", "2d4d10", "(2d4)d6", "2d(2d4)", "d4d6", "2d6k1d4", "(d4+1)d6", "3d(d4)k2", "2d3d2d2", "d(2d4)"})
 		case 0:
 			it.Lit = int64(r.Range(0, 30))
 		case 1:
@@ -141,6 +144,8 @@ func (sc *C14Scenario) render() (string, map[int][2]int) {
 		case it.Dice != nil:
 			sb.WriteString(it.Dice.term())
 			pos[i] = [2]int{start, sb.Len()}
+		case it.Raw != "":
+			sb.WriteString(it.Raw)
 		case it.Var != "":
 			sb.WriteString(it.Var)
 		default:
